@@ -15,7 +15,11 @@ CORE = "htmltools._core"
 CHILD_KINDS = sorted(NODE_KINDS - {"TAGLIST"})
 VISIBLE_KINDS = sorted(set(CHILD_KINDS) - META_KINDS)
 OPAQUE = {"Tag.get_html_string", "TagList.get_html_string", "JSXTag._repr_html_", "JSXTag.__str__", "JSXTag.tagify",
-          "JSXTag.__repr__"}
+          "JSXTag.__repr__",
+          # whole-tree entry points: rendering a child through one of them is a nested rendering, not part of the frame
+          "Tag.__str__", "TagList.__str__", "Tag.__repr__", "TagList.__repr__", "Tag._repr_html_", "TagList._repr_html_",
+          "Tag.render", "TagList.render", "Tag.tagify", "TagList.tagify", "HTMLDependency.__str__", "HTMLDependency.__repr__",
+          "HTMLDependency.as_html_tags"}
 
 
 # ---------------------------------------------------------------------------------------
